@@ -90,6 +90,7 @@ Definition check_wiring (c : wcase) : list string :=
   let repos := repos_fn (w_repos c) in
   let ctx := contexts (w_archs c) in
   let expected := by_arch_of ctx in
+  let faulty := String.eqb (w_transport c) "http-fault" in
   nodup string_dec (
     tag_if (negb (set_eqb String.eqb ctx (List.map fst (w_obs c)))) "mismatch:contexts" ++
     (* every context holds the one ByArch map the model computes: no sibling dropped, each under its key *)
@@ -102,7 +103,9 @@ Definition check_wiring (c : wcase) : list string :=
     flat_map (fun ao =>
       let a := fst ao in
       let own := flatten (repos a) in
-      compare_lists (resolve_arch repos ctx (w_world c) a) (snd ao) (has_iif_pkgs own) ++
+      (* under the http-fault transport (an index refused once) an error is always an acceptable answer; a list is still compared *)
+      (if faulty && match snd ao with None => true | Some _ => false end then []
+       else compare_lists (resolve_arch repos ctx (w_world c) a) (snd ao) (has_iif_pkgs own)) ++
       match snd ao with
       | None => []
       | Some l =>
@@ -118,7 +121,7 @@ Definition check_wiring (c : wcase) : list string :=
                                          | Some l => list_eqb nv_eqb (snd al) l
                                          | None => false
                                          end) m)) "mismatch:build-package-lists"
-    | Some _, None => ["mismatch:build-package-lists/model-ok-impl-error"]
+    | Some _, None => tag_if (negb faulty) "mismatch:build-package-lists/model-ok-impl-error"
     | None, Some _ => ["mismatch:build-package-lists/model-error-impl-ok"]
     end).
 
